@@ -717,7 +717,14 @@ def stream_ops():
 def crc_ops():
     ops = {}
 
+    def mktable(x, c):
+        # the public table builder called for some polynomial (its result is the caller's own table)
+        if x.rng.random() < 0.3:
+            poly = x.opt("poly", lambda: x.rng.choice([0x82F63B78, 0xEB31D82E, 0xEDB88320, x.rng.getrandbits(32)]))
+            x.call(c, "__call__", [{"bits": [poly, 32]}], cls=HIST, tag="crc_table", obj=x.aux["mktable"])
+
     def crc32(x, c):
+        mktable(x, c)
         x.call(c, "__call__", [B(x.msg())], tag="crc32")
     ops["crc32"] = (CHK, crc32)
 
@@ -1054,7 +1061,8 @@ def mk_crc(rng, pb, px):
     aux = {"crc": pb.obj({"kind": "attr", "path": "crysp.crc.crc"}),
            "table": pb.obj({"kind": "attr", "path": "crysp.crc.TABLE32_1"}),
            "fix": pb.obj({"kind": "attr", "path": "crysp.crc.crc32_fix"}),
-           "fixpos": pb.obj({"kind": "attr", "path": "crysp.crc.crc32_fix_pos"})}
+           "fixpos": pb.obj({"kind": "attr", "path": "crysp.crc.crc32_fix_pos"}),
+           "mktable": pb.obj({"kind": "attr", "path": "crysp.crc.crc_table"})}
     pool = make_pool(rng, [0, 1, 4, 5, 9, 33])
     a = pool[0] or b"seed"
     pool = [a, a + pool[2], a[:max(1, len(a) // 2)], pool[1]]        # prefix-related messages
